@@ -320,6 +320,11 @@ func c03Chunks(r *core.Run, p C03Case) {
 	low := []byte{1, 1, 2, 1, 2}
 	pc := func(b []byte) []byte { return append(append([]byte(nil), low...), b...) }
 	pieces := [][]byte{pc(c03Text[:p.Layout[0]]), pc(c03Text[40 : 40+p.Layout[1]]), pc(c03Text[10 : 10+p.Layout[1]+7])}
+	if len(p.Layout) > 5 && p.Layout[5] == 4 {
+		// the first piece is longer than the 4 KiB dictionary the stream declares (the reader's ring
+		// buffer has wrapped before the second chunk) and ends in bytes with all top bits set
+		pieces[0] = append(append([]byte(nil), c03Text[:p.Layout[0]]...), bytes.Repeat([]byte{0xFF}, 5200)...)
+	}
 	kinds := p.Layout[2:5]
 	g := ref.NewLZMA2Gen()
 	propsMenu := []ref.Props{{LC: 3, LP: 0, PB: 2}, {LC: 1, LP: 1, PB: 0}, {LC: 2, LP: 0, PB: 4}}
@@ -564,7 +569,7 @@ func runC03(r *core.Run) {
 						}
 						cases = append(cases, C03Case{Kind: "chunks", Layout: []int{s1, s2, k1, k2, k3}, DictCap: 4096})
 						if k2 != 0 && s1 == 30 && s2 == 25 {
-							for v := 1; v <= 3; v++ {
+							for v := 1; v <= 4; v++ {
 								cases = append(cases, C03Case{Kind: "chunks", Layout: []int{s1, s2, k1, k2, k3, v}, DictCap: 4096})
 							}
 						}
